@@ -108,10 +108,16 @@ MovesJoinZ(h, kn) ==
                     IF la # <<>> /\ ra # <<>>
                     THEN <<MJoin(i, j, <<Fn2("eq", Col(la[1]), Col(ra[1]))>>, "left", "_r"),
                            MJoin(i, j, <<Fn2("eq", Col(la[1]), Col(ra[1]))>>, "full", "_r")>>
-                         \o (IF ColOf(h[j], "z") = <<>> THEN <<MJoin(i, j, <<Fn2("eq", Col(la[1]), Col(ra[1]))>>, "inner", "_r")>> ELSE <<>>)
+                         \o <<MJoin(i, j, <<Fn2("eq", Col(la[1]), Col(ra[1]))>>, "inner", "_r")>>
                     ELSE <<>>
         hid(t) == SetToSortSeq({c \in Scope(t) : c \in kn /\ c \notin VisSet(t) /\ t.ty[c] = "int" /\ c \notin Scope(h[1]) /\ c \notin Scope(h[2])}, <)
-    IN  IF jc # 0 THEN (IF "probe" \in VisNames(h[jc]) THEN <<>> ELSE MapS(hid(h[jc]), LAMBDA c : MMutate(jc, <<KV("probe", Col(c))>>)))
+        n == Len(h)
+        (* second stage: the join result, re-rooted by a plain alias(), becomes the padded side of an outer join with the left source *)
+        stage2 == IF jc = n /\ VisNames(h[n]) \cap {"z", "z_r"} # {} THEN <<MAlias(n, "j", FALSE)>>
+                  ELSE IF jc # n /\ h[n].name = "j" /\ ~IsJoined(h[n]) /\ "a" \in VisNames(h[n]) /\ "a" \in VisNames(h[1])
+                       THEN <<MJoin(1, n, <<Fn2("eq", Col(ByName(h[1])["a"]), Fn2("add", Col(ByName(h[n])["a"]), LitI(1)))>>, "left", "_q")>>
+                       ELSE <<>>
+    IN  IF jc # 0 THEN (IF "probe" \in VisNames(h[jc]) THEN <<>> ELSE MapS(hid(h[jc]), LAMBDA c : MMutate(jc, <<KV("probe", Col(c))>>))) \o stage2
         ELSE pre(h[rc], rc) \o (IF lc = 1 THEN <<MMutate(1, <<KV("zl", Fn1("is_null", Col(ColOf(h[1], "b")[1])))>>)>> ELSE <<>>) \o jm(lc, rc)
 
 (* trimmed alphabet: an ordered / sliced / filtered / grouped-and-summarized side, then a join (SQL subquery rules for joins) *)
@@ -165,11 +171,20 @@ MovesUnion(h, kn) ==
                  \o MapS(Take(iv, 1), LAMBDA c : MArrange(jc, <<Ord(Col(c), FALSE, "first")>>))
                  \o <<MSummarize(jc, <<KV("n", Len0)>>)>>
                  \o (IF Cardinality(t.root) = 2 THEN <<MUnion(jc, rc, FALSE), MUnion(jc, rc, TRUE)>> ELSE <<>>)
+                 \* a union result descends from BOTH operands: joining it with one of them is a self-join without alias (ValueError)
+                 \o (IF Cardinality(t.root) = 2 /\ "a" \in VisNames(t) /\ "a" \in VisNames(h[rc]) /\ t.part = <<>> /\ h[rc].part = <<>>
+                     THEN <<MJoin(jc, rc, <<Fn2("eq", Col(ByName(t)["a"]), Col(ByName(h[rc])["a"]))>>, "inner", "_r"),
+                            MJoin(jc, lc, <<Fn2("eq", Col(ByName(t)["a"]), Col(ByName(t)["a"]))>>, "left", "_r")>> ELSE <<>>)
                  \o MapS(Take(SetToSortSeq({c \in kn : c \in Scope(h[lc]) /\ h[lc].ty[c] = "int"}, <), 2),
                          LAMBDA c : MMutate(jc, <<KV("probe", Col(c))>>))
                  \* the same reference inside an operator (the operator node must take its type from the column as the union sees it)
                  \o MapS(Take(SetToSortSeq({c \in kn : c \in Scope(h[lc]) /\ h[lc].ty[c] = "int"}, <), 2),
                          LAMBDA c : MMutate(jc, <<KV("probe", Fn2("mul", Col(c), LitI(2)))>>))
+                 \* ... and inside a case expression / an aggregate built from the old references
+                 \o MapS(Take(SetToSortSeq({c \in kn : c \in Scope(h[lc]) /\ h[lc].ty[c] = "int"}, <), 2),
+                         LAMBDA c : MMutate(jc, <<KV("probe", Case1D(Fn2("gt", Col(c), LitI(0)), Col(c), LitI(0)))>>))
+                 \o MapS(Take(SetToSortSeq({c \in kn : c \in Scope(h[lc]) /\ h[lc].ty[c] = "int"}, <), 1),
+                         LAMBDA c : MSummarize(jc, <<KV("probe", Agg("max", Case1D(Fn2("gt", Col(c), LitI(0)), Col(c), LitI(0))))>>))
         ELSE (IF lc = 1 THEN PreUnion(h[1], 1) ELSE <<>>)
              \o (IF rc = 2 THEN PreUnion(h[2], 2) ELSE <<>>)
              \o <<MUnion(lc, rc, FALSE), MUnion(lc, rc, TRUE)>>
@@ -271,6 +286,11 @@ MovesRef(h, kn) ==
              \o (IF Len(h) >= 2 /\ h[2].name = "t2" /\ ~IsJoined(h[i]) /\ h[i].part = <<>>
                     /\ "a" \in VisNames(h[i]) /\ h[i].root \cap h[2].root = {}
                  THEN <<MJoin(i, 2, <<Fn2("eq", Col(ByName(h[i])["a"]), Col(21))>>, "left", "")>> ELSE <<>>)
+             \* a join condition through a reference whose column the table no longer has in scope (aggregated away, cut off by a plain
+             \* alias / collect): ValueError, although the source table is still an ancestor
+             \o (IF Len(h) >= 2 /\ h[2].name = "t2" /\ ~IsJoined(h[i]) /\ h[i].part = <<>> /\ h[i].root \cap h[2].root = {}
+                 THEN MapS(Take(SetToSortSeq({c \in kn : c < 100 /\ c \notin Scope(h[i]) /\ c \in Scope(h[1]) /\ h[1].ty[c] = "int"}, <), 1),
+                           LAMBDA c : MJoin(i, 2, <<Fn2("eq", Col(c), Col(21))>>, "inner", "")) ELSE <<>>)
 
 ---------------------------------------------------------------------------
 (* C16: re-rooting verbs, self-joins of a derived table with its alias, old / new references *)
@@ -376,6 +396,11 @@ EquivMoves(h, i) ==
             MEquiv(i, "group_agg",
                    <<MGroupBy(0, <<Col(gc)>>, FALSE), MMutate(0, <<KV("w", w)>>), MUngroup(0)>>,
                    <<MMutate(0, <<KV("w", [w EXCEPT !.pk = "ids", !.part = <<Col(gc)>>])>>)>>, FALSE))))
+        \* ... also when the grouping column is hidden (select / drop only hide columns, the table stays grouped by it)
+        \o Flat(MapS(g, LAMBDA gc : MapS(<<Agg("sum", Col(b)), Len0>>, LAMBDA w :
+            MEquiv(i, "group_agg_hidden",
+                   <<MGroupBy(0, <<Col(gc)>>, FALSE), MDrop(0, <<Col(gc)>>), MMutate(0, <<KV("w", w)>>), MUngroup(0)>>,
+                   <<MMutate(0, <<KV("w", [w EXCEPT !.pk = "ids", !.part = <<Col(gc)>>])>>), MDrop(0, <<Col(gc)>>)>>, FALSE))))
         \* drop(c) vs select of the complement
         \o (IF t.part = <<>> /\ Len(t.vis) >= 2 THEN MapS(Take(t.vis, 3), LAMBDA c :
               MEquiv(i, "drop_select", <<MDrop(0, <<Col(c)>>)>>,
